@@ -116,16 +116,29 @@ pub fn judge(b: &[u8]) -> Verdict {
             match guarded(|| {
                 let r = <$ty>::parse(b);
                 let c = code(&r);
-                let acc = r.ok().map(|p| (hdr_of!(p), p.padding()));
+                // the header accessors both ways a caller can name them: method syntax on the concrete
+                // type (an inherent method of the same name would win there) and through the trait
+                let acc = r.ok().map(|p| {
+                    let via_trait = Hdr {
+                        version: RtcpPacketParserExt::version(&p),
+                        type_: RtcpPacketParserExt::type_(&p),
+                        count: RtcpPacketParserExt::count(&p),
+                        subtype: RtcpPacketParserExt::subtype(&p),
+                        length: RtcpPacketParserExt::length(&p),
+                    };
+                    (hdr_of!(p), via_trait, p.padding())
+                });
                 (c, acc)
             }) {
                 Ok((c, acc)) => {
                     v.codes[$idx] = c;
-                    if let Some((h, pad)) = acc {
+                    if let Some((h, ht, pad)) = acc {
                         if let Some(d) = framing_defect(b, Some(pt), min) {
                             v.violation.get_or_insert((format!("Accepted:{name}:{d}"), format!("{name}::parse accepted {} bytes although: {d}", b.len())));
                         } else if let Some(d) = header_defect(b, &h, Some(pad)) {
                             v.violation.get_or_insert((format!("Accessor:{name}:{d}"), format!("{name} header accessor {d} disagrees with the wire bytes")));
+                        } else if let Some(d) = header_defect(b, &ht, Some(pad)) {
+                            v.violation.get_or_insert((format!("Accessor:{name}:{d}"), format!("{name} header accessor {d} (called through RtcpPacketParserExt) disagrees with the wire bytes")));
                         }
                     }
                 }
